@@ -10,6 +10,9 @@ Rules
   A4  conformality: dL/dlat = (1-e^2) / ((1 - e^2 sin^2 lat) cos lat)   (with A1 this is meridian scale = parallel scale)
   A5  inverse consistency: substituting the forward map into the inverse gives back L and dlon; the latitude iteration has the
       true latitude as a fixed point
+  A6  stopping tolerance of the latitude iteration: small enough for the 1e-11 rad claim, and above the spacing of doubles when it is the only exit
+  A7  hidden state (E-PURE): the seven conversion functions keep no result in function-local statics / mutable globals unless every
+      parameter the kept value depends on is compared on the path that re-uses it (two converters on different ellipsoids share statics)
   W1  parameters computed by computeProjectionParameters reach the fields the maps read (aggregate order / constructor chain)
 Not decided: convergence of the latitude iteration and the 1e-11 rad bound (floating point)."""
 import math
@@ -82,6 +85,9 @@ def run(fx, R, tier):
         R.undecided('D1', 'LambertConverter', 'symbolic reader: %s' % u)
         return
     R.floor('D1', 10)
+    from .. import epure
+    for f_ in (fsec, ftan, ffor, finv, fiso, flat, fN):
+        epure.check(fx, R, 'A7', f_, 'LambertConverter::%s/%d' % (f_['name'], len(f_['params'])), fx.rel(f_['loc']))
     check_definedness(fx, R, fsec, rsec, ssec, ftan, rtan, stan, ffor, rfor, sfor, finv, rinv, sinv)
     from . import C03_alg
     C03_alg.run(fx, R, dict(fsec=fsec, rsec=rsec, ssec=ssec, ftan=ftan, rtan=rtan, stan=stan, ffor=ffor, rfor=rfor, sfor=sfor,
